@@ -97,7 +97,7 @@ def value_sets(tier):
         "p": P, "pb": P, "pe": P[: len(P) // 2], "pp": P[:200],
         "sm": S, "sd": S, "def": [1, 2, 10], "defs": ["en", "é", "a b"],
         # other configurations
-        "su": S2[:120], "h": S2[:120], "hv": S2[:120],
+        "su": S2[:120], "h": S2[:120], "hv": S2[:120], "hs": S2[:60], "hsv": S2[:60],
     }
 
 
@@ -149,7 +149,10 @@ def rules_subvar():
 
 def rules_host():
     return [Rule("/h/<v>", host="example.com", endpoint="h"),
-            Rule("/hv/<v>", host="<hostvar>.example.com", endpoint="hv")]
+            Rule("/hv/<v>", host="<hostvar>.example.com", endpoint="hv"),
+            # host rules rebuilt by a rule factory (Rule.empty() must carry the host along)
+            Submount("/v1", [Rule("/hs/<v>", host="example.com", endpoint="hs"),
+                             Rule("/hsv/<v>", host="<hostvar>.example.com", endpoint="hsv")])]
 
 
 CONFIGS = {
@@ -157,7 +160,7 @@ CONFIGS = {
                                     "any", "u", "p", "pb", "pe", "pp", "sm", "sd", "def", "defs"]),
     "defrev": (rules_defrev, {}, ["list", "k", "n"]),
     "subvar": (rules_subvar, {}, ["su"]),
-    "host": (rules_host, {"host_matching": True}, ["h", "hv"]),
+    "host": (rules_host, {"host_matching": True}, ["h", "hv", "hs", "hsv"]),
 }
 PATH_EPS = {"p", "pb", "pe", "pp"}
 SERVER = "example.com"
@@ -174,7 +177,7 @@ def make_values(ep, v):
         return {"v": "k", "w": v}
     if ep == "su":
         return {"v": v, "user": "u1"}
-    if ep == "hv":
+    if ep in ("hv", "hsv"):
         return {"v": v, "hostvar": "www"}
     return {"v": v}
 
